@@ -7,7 +7,7 @@ CONSTANTS
   Mode = "serialized"
   Dirs = {"main", "imp"}
   WatchDirs = "rearm"
-  Kinds = {"write", "remove"}
+  Kinds = {"write", "restore"}
 INVARIANTS Converges NoOverlap NeverMixedWhenDrained
 PROPERTY EventuallyDrained
 VIEW View
